@@ -230,6 +230,21 @@ pub fn shrink(
             }
         }
 
+        // 1d. an absolute path, a process that stays where it is
+        if best.relative {
+            let mut c = best.clone();
+            c.relative = false;
+            c.decoy = 0;
+            c.ops.retain(|o| !matches!(o, Op::Chdir { .. }));
+            if !c.ops.is_empty() {
+                if let Some(nv) = cx.fails(&c) {
+                    best = c;
+                    best_v = nv;
+                    progress = true;
+                }
+            }
+        }
+
         // 2. one client
         if best.n_clients > 1 {
             let mut c = best.clone();
